@@ -37,7 +37,6 @@ NA = {
     "C36": "static manifest interpreter over instruction vectors, boxed ASTs and maps",
     "C37": "constraint validators are comparison-only Decimal code over IndexSet-backed id sets; the fungible side would fit Engine M but was not built in the time available",
     "C38": "movement visitor over boxed ASTs and maps",
-    "C39": "decision reads KV entries and vault existence through the system API + SBOR; not tractable under the mock",
     "C40": "state-machine transitions are private generic impls over SystemApi; hooks + MockApi were designed (DESIGN 2.1) but not built in the time available",
     "C41": "pool helper arithmetic is an Engine-M target in radix-engine (MIR dump of radix-engine + replay binary not built in the time available)",
     "C42": "validator helper arithmetic is an Engine-M target in radix-engine (not built in the time available)",
